@@ -191,7 +191,8 @@ def run_inproc(sc: dict) -> dict:
         shutil.rmtree(base, ignore_errors=True)
     (base / "cache").mkdir(parents=True)
     job = {"flavour": sc["flavour"], "keys": sc.get("keys"), "nk": sc["nk"], "w": 0, "cache": True, "cache_dir": str(base / "cache"),
-           "ctl": str(base), "log": str(base / "log.jsonl"), "result": str(base / "res.json"), "steps": sc["steps"]}
+           "ctl": str(base), "log": str(base / "log.jsonl"), "result": str(base / "res.json"), "steps": sc["steps"],
+           "cache_obj": sc.get("cache_obj"), "clear_how": sc.get("clear_how")}
     info = ck.spawn(job, timeout=90)
     log = ck.read_log(job["log"])
     res = info.get("result")
@@ -206,6 +207,7 @@ def run_inproc(sc: dict) -> dict:
             cur["log"].append(r)
     runs = (res or {}).get("out", {}).get("runs", []) if res and res.get("ok") else []
     bad, ri, first = None, 0, True
+    run_steps = [st for st in sc["steps"] if st["op"] in ("run", "rerun", "rerun*")]
     expect = set(range(1, sc["nk"] + 1))        # keys the next run has to compute: those without a stored entry
     raw_computes = lambda lg: sorted(r["k"] for r in lg if r["e"] == "compute")   # noqa: E731  (worker hook, if any)
     for ch in chunks:
@@ -237,13 +239,14 @@ def run_inproc(sc: dict) -> dict:
             break
         run = runs[ri]
         ri += 1
+        nk_run = next((st.get("nk", sc["nk"]) for st in run_steps[ri - 1:ri]), sc["nk"])
         same = same_result(sc["flavour"], run["out"], run["ref"])
         events.append(_ev("end", ok=True, same=same))
         computed = sorted({e["k"] for e in evs if e["e"] == "compute"})
         hook = raw_computes(ch["log"])
         loads = sorted(e["k"] for e in evs if e["e"] == "load_end" and e["ok"])
-        want = sorted(expect)
-        rest = sorted(set(range(1, sc["nk"] + 1)) - expect)
+        want = sorted(k for k in expect if k <= nk_run)
+        rest = sorted(set(range(1, nk_run + 1)) - expect)
         if not same and not bad:
             bad = {"what": "results differ from the uncached run of the current function", "op_index": ri - 1, "op": run["op"],
                    "version": run["ver"], "got": run["out"], "expected": run["ref"]}
@@ -257,7 +260,7 @@ def run_inproc(sc: dict) -> dict:
         elif loads != rest and not bad:
             bad = {"what": "a run must load exactly the stored entries", "loaded": loads, "expected": rest,
                    "op_index": ri - 1, "op": run["op"]}
-        expect = set()
+        expect = {k for k in expect if k > nk_run}
         if bad:
             break
     if not bad and (not res or not res.get("ok")):
@@ -501,6 +504,8 @@ TRACE_CFG = """CONSTANTS
     Design = "any"
     Policy = "any"
     RenameAt = "closed"
+    BypassOne = FALSE
+    MkdirAtBuild = FALSE
     Recover = FALSE
     Forwards = TRUE
     MaxDrop = 3
@@ -547,6 +552,9 @@ def model_check(ctx: Ctx, rep: Report) -> dict:
         ("earlyrename", "CacheCrash_earlyrename.cfg", {"expect_violation": True, "workers": 2}, ""),
         ("memo", "CacheCrash_memo.cfg", {"expect_violation": True, "workers": 2}, ""),
         ("nocache", "CacheCrash_nocache.cfg", {"expect_violation": True, "workers": 2}, ""),
+        ("bypass1", "CacheCrash_bypass1.cfg", {"expect_violation": True, "workers": 2}, ""),
+        ("mkdir", "CacheCrash_mkdir.cfg", {"expect_violation": True, "workers": 2}, ""),
+        ("one", "CacheCrash_one.cfg", {"workers": 2}, "key set of size one: in-process histories, every contract invariant"),
         ("promote", "CacheCrash_promote.cfg", {"expect_violation": True, "workers": 2}, ""),
         ("lossy", "CacheCrash_lossy.cfg", {"expect_violation": True, "workers": 2}, ""),
         ("inproc", "CacheCrash_inproc.cfg", {"workers": 2},
@@ -584,6 +592,12 @@ def model_check(ctx: Ctx, rep: Report) -> dict:
                                      f"violate NoRecompute; TLC said {res.violated!r}")
             rep.notes["dropped_cache_counterexample"] = (
                 f"TLC: NoRecompute violated for Forwards=FALSE ({res.distinct} states): nothing is stored, the repeated run computes")
+            continue
+        if name in ("bypass1", "mkdir"):
+            want = {"bypass1": "NoRecompute", "mkdir": "NoRaise"}[name]
+            if res.violated != want:
+                raise MachineryError(f"the wrong instance {cfg} should violate {want}; TLC said {res.violated!r}")
+            rep.notes[f"{name}_counterexample"] = f"TLC: {want} violated ({res.distinct} states)"
             continue
         if name == "promote":
             if res.violated != "NoRaise":
@@ -782,7 +796,27 @@ def run(ctx: Ctx) -> int:
             if not cands:
                 raise MachineryError(f"in-process history {ops} was not emitted by CacheCrash_inproc.cfg")
             chosen.append(rnd_p.choice(cands))
-    rest = [p for p in psc if p not in chosen]
+    def extra(fl, ops, nk_, **kw):
+        steps = [{"op": o.split(":")[0], "w": 0 if kw.get("seq", True) else 2,
+                  **({"nk": int(o.split(":")[1])} if ":" in o else {})} for o in ops]
+        menus = MENUS.get(fl, MENUS["scan"])
+        return {"id": f"x{len(extras)}", "flavour": fl, "keys": menus[len(extras) % len(menus)], "nk": nk_, "ops": ops,
+                "modes": "seq" if kw.get("seq", True) else "pool", "steps": steps, "dir": str(ctx.work / "inproc" / f"x{len(extras)}"),
+                "cache_obj": kw.get("cache_obj"), "clear_how": kw.get("clear_how"), "notrace": kw.get("notrace", False)}
+
+    extras: list[dict] = []
+    for n_, fl in enumerate(["pmap"] + sorted(ck.ENTRY_POINTS)):
+        # key set of size ONE (one-row table / one Monte-Carlo sample): fresh, repeated, cleared
+        extras.append(extra(fl, ["run", "rerun", "clear", "run", "rerun"], 1, seq=n_ % 2 == 0))
+        # asking a complete cache for one key only
+        extras.append(extra(fl, ["run", "rerun:1", "rerun"], 3, seq=n_ % 2 == 1, notrace=True))
+        # ONE Cache object across the whole history: directory deleted (rmtree) / object re-pointed to a new directory
+        extras.append(extra(fl, ["run", "rerun", "clear", "run", "rerun"], 3 if n_ % 2 else 2, seq=n_ % 3 != 0,
+                            cache_obj="shared", clear_how="rmtree" if n_ % 2 == 0 else "repoint"))
+    extras.append(extra("pmap", ["run", "rerun"], 0, notrace=True))           # the empty key set
+    extras.append(extra("pmap", ["run", "rerun", "clear", "run", "rerun"], 3, cache_obj="shared", clear_how="repoint"))
+    chosen += extras
+    rest = [p for p in psc if p not in chosen and p["flavour"] in FLAVOURS + sorted(ck.ENTRY_POINTS)]
     psc = chosen + rnd_p.sample(rest, min(12 if ctx.quick else 150, len(rest)))
     both = ck.lanes(run_any, psc + scs, ctx.work, n=8, tag="inj")
     presults, results = both[:len(psc)], both[len(psc):]
@@ -808,6 +842,12 @@ def run(ctx: Ctx) -> int:
         rep.evaluations += 1
         rep.replayed += 1
         rep.distinct.add(json.dumps(["inproc", sc["flavour"], sc["ops"], sc["modes"]]))
+        if sc.get("notrace"):          # a run over a prefix of the keys / the empty key set: judged by the replayer only
+            if r["status"] == "violation":
+                rep.mismatch({"inproc": True, "crashes": [], "l": 2, **{k: sc.get(k) for k in
+                                                                         ("flavour", "keys", "nk", "ops", "modes", "steps", "cache_obj", "clear_how")}},
+                             r["detail"], None)
+            continue
         trace_items.append((sc["id"], sc["nk"], r["spec_w"], r["trace"]))
         if r["status"] == "violation":
             failed[sc["id"]] = r["detail"]
@@ -839,7 +879,7 @@ def run(ctx: Ctx) -> int:
         acc = tv["verdict"].get(tid, False)
         sc = by_id.get(tid)
         scen = ({k: sc[k] for k in ("flavour", "keys", "w", "nk", "l", "crashes", "offsets", "points")} if sc
-                else {"inproc": True, "crashes": [], "l": 2, **{k: by_pid[tid][k] for k in ("flavour", "keys", "nk", "ops", "modes", "steps")}}
+                else {"inproc": True, "crashes": [], "l": 2, **{k: by_pid[tid][k] for k in ("flavour", "keys", "nk", "ops", "modes", "steps", "cache_obj", "clear_how")}}
                 if tid in by_pid else {"clean": tid, "crashes": [], "l": 2})
         if tid in failed:
             if acc:
